@@ -11,10 +11,10 @@ checks = {
    text="seeded search over accept sequences, consumer behaviours, capacities, quotas, restart generations and goroutine schedules of producer vs feeder vs consumer on a simulated disk; conservation / FIFO / at-most-once confirmation / non-blocking accept / memory and byte bounds checked against a per-chunk reference model after every generation.",
    note="trusted base: simulator and simfs disk model; memory bound evaluated only on feeder-fair schedules; the consumer stub honours the ChunkConsumer contract (reacts to the stop signal)"),
  "C04": dict(engine="world-C", cat="fault_enumeration", ref="DESIGN.md §5 C04",
-   text="within each seeded scenario the fault points of chunk persistence are enumerated from the recorded file-system trace (every create/write/close/rename/unlink of a chunk file x {error, kill}; for writes the byte offsets {0,1,n/2,n-1,n}+random as short write, error-after-k and kill-after-k), across scenarios placement is seeded; after restarts a healthy consumer must receive only byte-identical chunks and every intact file.",
+   text="within each seeded scenario the fault points of chunk persistence are enumerated from the recorded file-system trace (every create/write/close/rename/unlink of a chunk file x {error, kill}; for writes the byte offsets {0,1,n/2,n-1,n}+random as short write, error-after-k and kill-after-k), across scenarios placement is seeded; after restarts a healthy consumer must receive only byte-identical chunks and every intact file. Confirmed end to end in world A (profile c04a): the whole agent on a disk with seeded short writes, errors, a disk that stays full, and kills of the agent process at file operations (restarted each time), against a strict fake upstream: every received message decodes and equals its records, a chunk id transmitted again carries the same contents, damaged or planted files never block the queue, losses without a kill only with a counted drop.",
    note="crash model = process kill (completed writes survive, the write in progress stops after k bytes); power loss not modelled; simfs is a model of the kernel's file API"),
  "C08": dict(engine="world-E", cat="exploration", ref="DESIGN.md §5 C08",
-   text="seeded search over record streams, read fragmentations and pause timings around the flush interval, plus the exhaustive sweep of all 1-cut and 2-cut splits of each short base stream, against the real listener/framer on simulated TCP; emitted messages compared with an independent line-based reference framer.",
+   text="seeded search over record streams, read fragmentations and pause timings around the flush interval, plus the exhaustive sweep of all 1-cut and 2-cut splits of each short base stream, against the real listener/framer on simulated TCP; emitted messages compared with an independent line-based reference framer; in part of the runs the consumer blocks inside Accept (back-pressure) for up to 21 flush intervals while the rest of the stream waits in the socket.",
    note="trusted base: simulator and simnet (segment-preserving reads, deadline semantics of net.Conn); limits scaled down with the shipped relations; newline-terminated streams only"),
  "C17": dict(engine="world-D", cat="exploration", ref="DESIGN.md §5 C17",
    text="seeded search over the interleavings of sink registration, use and close with SIGHUP reloads (accepted and rejected) at the real ReloadableOrchestrator: the property's small case (two connections, one reload) with the distinct-interleaving count reported, larger API cases, and the composed case with the real listener on simulated TCP where descriptor numbers are reused like in the kernel; recording downstream orchestrators give the oracle R1-R6; end to end, world A runs the real Reloader with valid / invalid / incompatible configuration files rewritten before each SIGHUP under traffic and upstream faults.",
@@ -23,10 +23,10 @@ checks = {
    text="seeded search over record streams, upstream fault scripts per connection attempt, graceful restart histories and goroutine schedules of the whole agent on simulated network and disk; at-least-once judged on what the agent actually read vs what the fake upstream acknowledged or the queue directory holds after the final stop, every delivered event compared with a fresh-pipeline reference, bounded liveness after faults stop.",
    note="trusted base: simulator, simnet/simfs models, fluentlib decoding on the fake server, the sequential reference pipeline; TLS/handshake off; sampling, not proof"),
  "C05": dict(engine="world-A", cat="exploration", ref="DESIGN.md §5 C05",
-   text="same world with shared key sets, small batches/chunks and forced spill; order of first deliveries per (connection, key set) and per-connection chunk order / no skipped older undelivered chunk checked over the fake upstream's global receive history.",
+   text="same world with shared key sets, small batches/chunks and forced spill; order of first deliveries per (connection, key set) and per-connection chunk order / no skipped older undelivered chunk checked over the fake upstream's global receive history; scheduler faults in part of the runs: late goroutine starts, descheduled goroutines, wall-clock steps, and pipeline workers held longer than the hand-over timeout while their connections keep delivering.",
    note="trusted base as C01; queue limits are not reachable in this profile (the documented skip path legitimately defers chunks)"),
  "C06": dict(engine="world-A", cat="exploration", ref="DESIGN.md §5 C06",
-   text="same world with adversarial key values (empty, separators, colliding concatenations); tag, chunk membership and queue directory of every record judged against its own key tuple with an independent template expander, reattachment of queues after restarts judged from retransmissions.",
+   text="same world with adversarial key values (empty, separators, control characters, bytes that are not UTF-8, colliding concatenations); tag, chunk membership and queue directory of every record judged against its own key tuple with an independent template expander, reattachment of queues after restarts judged from retransmissions.",
    note="trusted base as C01; key values reach the agent through syslog header tokens (no spaces)"),
  "C07": dict(engine="world-A", cat="exploration", ref="DESIGN.md §5 C07",
    text="same world fed with grammar-mutated hostile byte streams between well-formed sentinel records over fragmenting connections: no goroutine of the running agent may panic, sentinels must arrive unaltered, a clean connection afterwards must be served. The stream-level surface is what simulation adds; the per-record byte space of the pure functions is only sampled.",
@@ -35,13 +35,13 @@ checks = {
    text="same world with chunk limits scaled down and sizes around them in all three Forward modes; every chunk that reaches the upstream or the disk (after spill, retry, recovery) is checked for well-formedness, self-description, id uniqueness, completeness and order. What simulation adds is the write/flush interleaving, ids cut at one clock instant and across restarts, and checking what actually arrives.",
    note="trusted base as C01; the Datadog chunk maker and serializer run for real in profile c11dd, the Datadog HTTP client (net/http, no seam) is replaced by a consumer that never takes a chunk"),
  "C12": dict(engine="world-A", cat="exploration", ref="DESIGN.md §5 C12",
-   text="same world with every record pooled and the pool driven adversarially by the decision stream, several connections interleaved into shared pipelines; every delivered event, on one or two outputs, must equal the event of its own record on a fresh single-record pipeline for that output; configuration with per-record flags (unescape), composed fields in the input extractions and late conditional fields; released buffers poisoned in half of the runs.",
+   text="same world with every record pooled and the pool driven adversarially by the decision stream, several connections interleaved into shared pipelines; every delivered event, on one or two outputs, must equal the event of its own record on a fresh single-record pipeline for that output; configuration with per-record flags (unescape), composed fields in the input extractions and late conditional fields; released buffers poisoned in half of the runs; a quarter of the runs reload a configuration that appends a conditionally set schema field (record objects outlive the reload).",
    note="trusted base as C01; percentage sampling excluded (documented as stateful); a violation that depends on Go's per-map hash seed does not replay and is reported as harness error, not as violation (DESIGN.md §11.2 defect 16)"),
  "C18": dict(engine="world-A", cat="exploration", ref="DESIGN.md §5 C18",
    text="stop requests at seeded moments against every upstream state and load; simulated time from the stop request to the return of shutdownInputs()+Shutdown() compared with the bound computed from the timeouts configured for that run; nothing may be only in memory afterwards; plus the client-level stop bound in world B.",
    note="trusted base as C01; the fake clock makes minute-long timeouts free, so the bound is checked at shipped-order timeout values"),
  "C19": dict(engine="world-A", cat="exploration", ref="DESIGN.md §5 C19",
-   text="balance equations between the agent's own counters and harness-observed events after every graceful stop of faulty runs, and per-label attribution: pipeline and labelled counters of every key-label tuple against the records with exactly those key values (two metric keys with colliding concatenations in half of the runs).",
+   text="balance equations between the agent's own counters and harness-observed events after every graceful stop of faulty runs, and per-label attribution: pipeline and labelled counters of every key-label tuple against the records with exactly those key values (two metric keys in half of the runs, with value pairs that coincide under plain concatenation, under length prefixes without terminator and under joining characters).",
    note="trusted base as C01; only relations determined by observable events are asserted (equalities where possible, inequalities where in-flight loss makes a quantity unobservable); profiles without reachable limits"),
 }
 na_pure = {
